@@ -163,6 +163,9 @@ func Verif_C20_ServerToClient() {
 		if got > n {
 			return
 		}
+		// a receiver that takes one message lets the sender advance by one, not more
+		zv.Quiesce()
+		zv.Assert(atomic.LoadInt32(&completed) <= int32(got)+1, "sender-at-most-one-message-ahead-of-a-slow-receiver")
 	}
 	zv.Reach("drained")
 	zv.Assert(got == n && atomic.LoadInt32(&completed) == int32(n), "all-sends-complete-once-receiver-runs")
